@@ -917,6 +917,15 @@ theorem C15_stale_lookup_cache_fails :
       (hrun std {} [.open 7, .data 7 [48] [81, 85, 74, 68], .closeSid 7, .open 7, .data 7 [48] [82, 69, 86, 71]]).2 := by
   decide
 
+/-- REGENERATED FACT (lock discipline, not probeable): in package ibb every access to the stream table
+of `Handler` (the field that maps to `*Conn`, whatever it is called; lookup, insert, delete, nil test)
+is made while one and the same mutex of `Handler` is held — in the function itself or, for a helper
+that does not lock, at every one of its call sites.  This is what makes `hstep` (one table access =
+one atomic step) an adequate model while `Close` / `OpenIQ` run on application goroutines and the
+peer's packets and close requests on the serve goroutine.  (Before the round-D fix the peer's
+`<close/>` was looked up without the lock: `some false`.) -/
+theorem C15_stream_table_accesses_locked : Generated.C15.streamTableLocked = some true := by decide
+
 end Table
 
 /-! ### the executable codec instance: spot checks -/
